@@ -18,6 +18,8 @@ os.environ.setdefault('PBR_VERSION', '0.0.0')
 if REPO not in sys.path:
     sys.path.insert(0, REPO)
 
+import warnings  # noqa: E402
+warnings.filterwarnings('ignore')
 import logging  # noqa: E402
 logging.getLogger('cgsmiles').setLevel(logging.ERROR)
 logging.getLogger('sxcg').setLevel(logging.ERROR)
